@@ -145,6 +145,22 @@ def wake(ctx):
         ok, detail = notify_follows(f, f.pos_of(op["st"]), "cv", ["counter_"], CLS, la=locks_of(ctx.eng, ctx.fb, f), mutex="mtx")
         ctx.ob(rid, ok, f.loc(op["st"]), "the arrival is followed by cv.notify_all() when it may open the latch",
                "" if ok else detail, fn=top.label, inst=f.qname)
+        # a decrement by more than one can step over zero: the decision to wake must then be an inequality
+        v = unwrap(f, op["value"]) if op.get("value") is not None else None
+        unit = op["name"] == "operator--" or (v is not None and v["k"] == "IntegerLiteral" and v.get("v") == 1)
+        if not unit:
+            eqs = []
+            for st in f.stmts.values():
+                if st["k"] == "BinaryOperator" and st.get("op") in ("==", "!="):
+                    if any(path(f, x) == "this.counter_" for x in f.children(st)):
+                        eqs.append(st)
+                if st["k"] == "CXXOperatorCallExpr" and st.get("op") in ("==", "!=") and \
+                        any(path(f, f.s(a)) == "this.counter_" for a in st["args"]):
+                    eqs.append(st)
+            ctx.ob(rid, not eqs, f.loc(eqs[0]) if eqs else f.loc(op["st"]), "a decrement by an arbitrary amount decides to wake with an "
+                   "inequality on counter_", "" if not eqs else "counter_ is decreased by a caller-chosen amount at %s but tested for "
+                   "equality with zero: an arrival that takes it below zero wakes nobody and the waiters stay blocked"
+                   % f.loc(op["st"]), fn=top.label, inst=f.qname)
 
 
 def nonblock(ctx):
